@@ -20,6 +20,7 @@ package checks
 import (
 	"errors"
 	"fmt"
+	"golang.org/x/sys/unix"
 	"os"
 	"time"
 
@@ -158,6 +159,12 @@ func (d *ioDriver) armTimer(t *ioTimer, dur time.Duration) {
 	if t.short {
 		// own the timing: a short timer has always expired (the kernel says so) before the next action
 		if !kern.AwaitReadable(t.fd, settleGuard) {
+			// the kernel decides: a timer that is not even armed will never expire — that is the library's doing, not the
+			// environment's, and RunPending would wait for it for ever
+			var cur unix.ItimerSpec
+			if err := unix.TimerfdGettime(t.fd, &cur); err == nil && cur.Value.Sec == 0 && cur.Value.Nsec == 0 {
+				d.fail("timer/accepted-but-not-armed", "ScheduleOnce(%v) returned nil but the timerfd is neither armed nor expired; Pending()=%d counts a timer that can never fire", dur, d.ioc.Pending())
+			}
 			d.x.Inconclusive("timerfd did not expire")
 		}
 	}
